@@ -409,6 +409,7 @@ class _Track:
     def __init__(self, pe):
         self.pe, self.config, self.control_size = pe, pe.config, pe.control_size
         self.pmax = self.xmax = 0.0
+        self.calls = 0
 
     def note(self, out):
         self.xmax = max(self.xmax, float(np.max(np.abs(out[0].data))) if out[0].data.size else 0.0)
@@ -419,6 +420,7 @@ class _Track:
         return self.pe.make_reading(key, **kw)
 
     def process_model(self, dt, state, covariance, control=None):
+        self.calls += 1
         self.note((state, covariance))
         return self.note(self.pe.process_model(dt, state, covariance, control) if control is not None else self.pe.process_model(dt, state, covariance))
 
@@ -511,8 +513,10 @@ def _lockstep(schedule, leg, res):
                         rd2 = [StampedReading(xf(r["t"]), r["sensor"], **{q: xf(v) for q, v in r["values"].items()}) for r in op["readings"]]
                         out2 = ManagedFilter(pe, before[0], pst, before[2]).tick(xf(op["t_out"]), readings=rd2 if (rd2 or op["has_list"]) else None, **kw)
                         sens = (float(np.max(np.abs(out2.state.data - out.state.data))), float(np.max(np.abs(out2.covariance.data - out.covariance.data))))
+                        eps_abs = float(np.max(np.abs(pst.data - before[1].data)))
                     except Exception:  # noqa: BLE001
                         sens = (float("inf"), float("inf"))
+                        eps_abs = 1.0
                     parts = [f"MFTICK {fx(xf(op['t_out']))}{cvals} {len(readings)} {int(op['has_list'])}"]
                     for r in op["readings"]:
                         rn = sorted(d["sensors"][r["sensor"]]["readings"])
@@ -527,8 +531,9 @@ def _lockstep(schedule, leg, res):
                         groups.append((cur_t, xf(r["t"])))
                         cur_t = xf(r["t"])
                     groups.append((cur_t, xf(op["t_out"])))
-                    expect.append(("tick", i, out, {"n": len(readings), "pmax": track.pmax, "xmax": track.xmax, "sens": sens, "groups": groups, "sensors": [(sensors.index(r["sensor"]), r["rid"]) for r in op["readings"]]}))
+                    expect.append(("tick", i, out, {"n": len(readings), "pmax": track.pmax, "xmax": track.xmax, "sens": sens + (track.calls, eps_abs), "groups": groups, "sensors": [(sensors.index(r["sensor"]), r["rid"]) for r in op["readings"]]}))
                     track.pmax = track.xmax = 0.0
+                    track.calls = 0
                     st, cov = mf.state, mf.covariance  # what the python runtime holds (direct ops continue from there)
                     if readings:
                         held_t = xf(op["readings"][-1]["t"])
@@ -562,8 +567,10 @@ def _compare(schedule, expect, out_lines, res, n, S):
                 return ln.split()[1:]
         return None
 
+    carry = 0.0  # state difference already present at the end of the previous tick of the same persistent C++ managed filter
     for kind, i, out, extra in expect:
         if kind == "newmf":
+            carry = 0.0
             continue
         if kind == "predict":
             r = nxt("R")
@@ -642,7 +649,8 @@ def _compare(schedule, expect, out_lines, res, n, S):
             xs, Ps = _parse_sv(r, n)
             res.stats["tick"] += 1
             res.stats[f"probe:tick_readings={min(extra['n'], 3)}"] += 1
-            _cmp_sv(res, "C07", "tick", i, (out.state, out.covariance), xs, Ps, extra["pmax"], extra["xmax"], extra["sens"])
+            _cmp_sv(res, "C07", "tick", i, (out.state, out.covariance), xs, Ps, extra["pmax"], extra["xmax"], extra["sens"] + (carry,))
+            carry = float(np.max(np.abs(xs - out.state.data))) if xs.size else 0.0  # the two managed filters run on from their own estimates
             if h[0] != "1":
                 xb, Pb = _parse_sv(bh, n)
                 res.add("C12", "tick_vs_by_hand", f"C12:cpp:tick_vs_by_hand:{combo}", i, f"tick == by-hand replay of the logged calls, bit for bit: {xb.T.tolist()}", f"tick returned {xs.T.tolist()}", "cpp")
@@ -734,7 +742,7 @@ def _check_steps(res, schedule, i, calls, extra, combo):
             res.add("C10", v["clause"], f"C10:cpp_generated:{v['clause']}", i, v["expected"] + f" (configured max_dt_sec={float(max_dt)!r}, generated filter under the C++ runtime)", v["observed"], "cpp")
 
 
-def _cmp_sv(res, prop, kind, i, out, xs, Ps, pmax=0.0, xmax=0.0, sens=(0.0, 0.0)):
+def _cmp_sv(res, prop, kind, i, out, xs, Ps, pmax=0.0, xmax=0.0, sens=(0.0, 0.0, 1)):
     """rounding of P - K H P and x + K(z-h) is relative to the largest magnitude along the way (cancellation), not to the result;
     for multi-step ticks 5% of the measured response to a 1e-12 perturbation of the input is allowed on top (chaotic models)"""
     so, co = out
@@ -742,13 +750,22 @@ def _cmp_sv(res, prop, kind, i, out, xs, Ps, pmax=0.0, xmax=0.0, sens=(0.0, 0.0)
         return
     scale_x = 1.0 + max(float(np.max(np.abs(so.data))) if so.data.size else 0.0, xmax)
     scale_P = 1.0 + max(float(np.max(np.abs(co.data))) if co.data.size else 0.0, pmax)
-    if sens[0] > 1e-9 * scale_x or sens[1] > 1e-8 * scale_P or scale_x > 1e4 or scale_P > 1e6:
+    # every one of the n steps of a tick injects a few ulp (~4e-16 relative) that then grows like the measured response to the
+    # 1e-12 perturbation: two correct implementations may differ by about n * 4e-4 * sens. Slack = max(0.05, 1e-3 n) * sens;
+    # when that slack alone would eat half the tolerance the tick is ill-conditioned for this comparison.
+    n_calls = sens[2] if len(sens) > 2 else 1
+    slack = max(0.05, 1e-3 * n_calls)
+    # consecutive ticks run on persistent managed filters (not re-seeded): a difference d already present at the start of this
+    # tick is amplified like the perturbation was: d * sens / eps
+    if len(sens) > 4 and sens[4] > 0 and sens[3] > 0:
+        slack += 2.0 * sens[4] / sens[3]
+    if slack * sens[0] > 0.5 * TOL * scale_x or slack * sens[1] > 5 * TOL * scale_P or scale_x > 1e4 or scale_P > 1e6:
         # domain guard (well-conditioned inputs): this tick amplifies a 1e-12 perturbation more than a thousandfold, or left
         # the bounded domain; two correct implementations legitimately diverge here. Not compared, counted.
         res.stats["probe:tick_not_compared_ill_conditioned"] += 1
         return
-    dx = max(0.0, float(np.max(np.abs(xs - so.data))) - 0.05 * sens[0]) if so.data.size else 0.0
-    dP = max(0.0, float(np.max(np.abs(Ps - co.data))) - 0.05 * sens[1]) if co.data.size else 0.0
+    dx = max(0.0, float(np.max(np.abs(xs - so.data))) - slack * sens[0]) if so.data.size else 0.0
+    dP = max(0.0, float(np.max(np.abs(Ps - co.data))) - slack * sens[1]) if co.data.size else 0.0
     if sens[0] > 1e-9 or sens[1] > 1e-9:
         res.stats["probe:chaotic_tick_slack_used"] += 1
     ex = dx / (1.0 + max(float(np.max(np.abs(so.data))), xmax)) if so.data.size else 0.0
